@@ -56,6 +56,11 @@ pub fn run(seed: u64, dir: &Path, blob: bool, n_writes: usize, writer_published:
     let keys = gen::key_universe(&mut rng);
     let mut d = Driver::new(dir, cfg.clone());
     d.dump_enabled = false;
+    // every second run: a compaction filter that keeps everything but is slow to finish, so that
+    // the gap between the end of a merge and its commit is wide enough for other threads
+    if seed % 2 == 0 {
+        d.slow_filter_us = Some(*rng.pick(&[500u64, 3_000, 15_000]));
+    }
     let mut out = String::new();
     let _ = writeln!(out, "C {}", cfg.text());
     if let Err(e) = d.open() {
